@@ -226,16 +226,27 @@ def gen(ctx):
 
 # =========================================================================== literals
 def ctext(t):
-    """Coq literal of a Python str (code points) / None -> option text."""
-    return "None" if t is None else "(Some %s)" % cstr(t)
+    """Coq literal of a Python str (code points) -> option text; anything that is not a str (None, bytes, int) is the
+    model's None = 'not a str'."""
+    return "(Some %s)" % cstr(t) if isinstance(t, str) else "None"
 
 
 def jtext(t):
-    return None if t is None else [ord(c) for c in t]
+    if t is None:
+        return None
+    if isinstance(t, bytes):
+        return {"bytes": t.hex()}
+    if isinstance(t, int):
+        return {"int": t}
+    return [ord(c) for c in t]
 
 
 def untext(j):
-    return None if j is None else "".join(chr(c) for c in j)
+    if j is None:
+        return None
+    if isinstance(j, dict):
+        return bytes.fromhex(j["bytes"]) if "bytes" in j else j["int"]
+    return "".join(chr(c) for c in j)
 
 
 def c_rop(o):
@@ -251,6 +262,10 @@ def c_rop(o):
     raise ValueError(o)
 
 
+def pairs_shape(o):
+    return o[2] if len(o) > 2 else "dict"
+
+
 def j_rop(o):
     t = o[0]
     if t == "read":
@@ -261,7 +276,13 @@ def j_rop(o):
         return ["del", jtext(o[1])]
     if t == "clear":
         return ["clear"]
-    return ["assign", [[jtext(k), jtext(v)] for k, v in o[1]]]
+    if t == "pop":
+        return ["pop", jtext(o[1]), o[2]]
+    if t == "setdefault":
+        return ["setdefault", jtext(o[1]), jtext(o[2])]
+    if t == "popitem":
+        return ["popitem"]
+    return [t, [[jtext(k), jtext(v)] for k, v in o[1]], pairs_shape(o)]      # assign / update
 
 
 def unj_rop(j):
@@ -274,17 +295,23 @@ def unj_rop(j):
         return ("del", untext(j[1]))
     if t == "clear":
         return ("clear",)
-    return ("assign", [(untext(k), untext(v)) for k, v in j[1]])
+    if t == "pop":
+        return ("pop", untext(j[1]), j[2])
+    if t == "setdefault":
+        return ("setdefault", untext(j[1]), untext(j[2]))
+    if t == "popitem":
+        return ("popitem",)
+    return (t, [(untext(k), untext(v)) for k, v in j[1]], j[2] if len(j) > 2 else "dict")
 
 
 ARG_KEYS = ("name", "value", "max_age", "path", "domain", "comment", "secure", "httponly", "samesite")
 
 
 def c_args(a, date=""):
-    return "(mkArgs %s %s %s %s %s %s %s %s %s %s)" % (
+    return "(mkArgs %s %s %s %s %s %s %s %s %s %s %s)" % (
         cstr(a["name"]), ctext(a.get("value")), copt(None if a.get("max_age") is None else cZ(a["max_age"])),
         ctext(a.get("path")), ctext(a.get("domain")), ctext(a.get("comment")), cbool(a.get("secure", False)),
-        cbool(a.get("httponly", False)), ctext(a.get("samesite")), cstr(date))
+        cbool(a.get("httponly", False)), ctext(a.get("samesite")), cstr(date), cbool(a.get("validate", True)))
 
 
 def c_xop(o, date=""):
@@ -297,9 +324,17 @@ def c_xop(o, date=""):
         return "(XUnset %s %s %s)" % (cbool(o[1]), cstr(o[2]), cbool(o[3]))
     if t == "merge":
         return "(XMerge %s)" % cbool(o[1])
+    if t == "mergeself":
+        return "(XMergeSelf %s)" % cbool(o[1])
     if t == "raw":
         return "(XAddRaw %s %s %s)" % (cbool(o[1]), cstr(o[2]), cstr(o[3]))
     raise ValueError(o)
+
+
+def xshape(o):
+    """The argument-shape dict carried by an unset/delete op (absent = keywords, str name)."""
+    n = {"unset": 4, "delete": 5}[o[0]]
+    return o[n] if len(o) > n else {}
 
 
 def j_xop(o):
@@ -310,11 +345,11 @@ def j_xop(o):
             a[k] = jtext(a.get(k))
         return ["set", o[1], a, o[3]]
     if t == "delete":
-        return ["delete", o[1], jtext(o[2]), jtext(o[3]), jtext(o[4])]
+        return ["delete", o[1], jtext(o[2]), jtext(o[3]), jtext(o[4]), xshape(o)]
     if t == "unset":
-        return ["unset", o[1], jtext(o[2]), o[3]]
-    if t == "merge":
-        return ["merge", o[1]]
+        return ["unset", o[1], jtext(o[2]), o[3], xshape(o)]
+    if t in ("merge", "mergeself"):
+        return [t, o[1]]
     return ["raw", o[1], o[2], o[3]]
 
 
@@ -326,11 +361,11 @@ def unj_xop(j):
             a[k] = untext(a.get(k))
         return ("set", j[1], a, j[3])
     if t == "delete":
-        return ("delete", j[1], untext(j[2]), untext(j[3]), untext(j[4]))
+        return ("delete", j[1], untext(j[2]), untext(j[3]), untext(j[4]), j[5] if len(j) > 5 else {})
     if t == "unset":
-        return ("unset", j[1], untext(j[2]), j[3])
-    if t == "merge":
-        return ("merge", j[1])
+        return ("unset", j[1], untext(j[2]), j[3], j[4] if len(j) > 4 else {})
+    if t in ("merge", "mergeself"):
+        return (t, j[1])
     return ("raw", j[1], j[2], j[3])
 
 
@@ -356,11 +391,51 @@ class FrozenClock:
         C().datetime = self.old
 
 
-def new_request(header):
+class StrictQuote:
+    """The two configurations under which _value_quote refuses instead of quoting: the module flag
+    webob.cookies._should_raise (mode 1) and RuntimeWarning turned into an error by the warnings filter (mode 2)."""
+
+    def __init__(self, mode):
+        self.mode = mode
+
+    def __enter__(self):
+        self.cw = warnings.catch_warnings()
+        self.cw.__enter__()
+        ck = C()
+        self.old = ck._should_raise
+        if self.mode == 1:
+            ck._should_raise = True
+        elif self.mode == 2:
+            warnings.simplefilter("error", RuntimeWarning)
+
+    def __exit__(self, *a):
+        C()._should_raise = self.old
+        self.cw.__exit__(*a)
+
+
+N_QCFG = 4
+
+
+def new_request(header, cfg=0):
+    """A Request over an environ with this Cookie header, in the configuration `cfg`:
+    0 webob.Request                      1 webob.request.BaseRequest (no ad-hoc attributes)
+    2 a subclass, with the request charset / url_encoding knobs changed (latin-1 CONTENT_TYPE, webob.url_encoding)
+    3 an environ that carries a 'webob._parsed_cookies' entry left by an EARLIER, different header"""
     from webob import Request
+    from webob.request import BaseRequest
     env = Request.blank("/").environ
     if header is not None:
         env["HTTP_COOKIE"] = header
+    if cfg == 1:
+        return BaseRequest(env)
+    if cfg == 2:
+        class Odd(Request):
+            default_request_charset = "latin-1"
+        env["CONTENT_TYPE"] = "text/plain; charset=latin-1"
+        env["webob.url_encoding"] = "latin-1"
+        return Odd(env)
+    if cfg == 3 and header != "zz=stale":
+        env["webob._parsed_cookies"] = ({"zz": "stale"}, "zz=stale")
     return Request(env)
 
 
@@ -387,6 +462,31 @@ def read_expected(jar, name):
             [v for _, v in jar], [k for k, _ in jar], d[name] if name in d else Err("KeyError")]
 
 
+def pairs_arg(o, req):
+    """The object handed over for an assign/update op, in the shape the op asks for, and a snapshot to compare with."""
+    shape = pairs_shape(o)
+    ps = [(k, v) for k, v in o[1]]
+    if shape == "list":
+        return list(ps), list(ps)
+    if shape == "gen":
+        return (p for p in ps), None
+    if shape == "self":
+        return req.cookies, None                       # the request's OWN jar: req.cookies = req.cookies
+    if shape == "view":
+        other = new_request(None)
+        ck = C()
+        keep = ck._should_raise
+        with warnings.catch_warnings():                # built under the default configuration, whatever the case runs under
+            warnings.simplefilter("ignore")
+            ck._should_raise = None
+            try:
+                other.cookies = dict(ps)               # another request's jar carrying these cookies
+            finally:
+                ck._should_raise = keep
+        return other.cookies, None
+    return dict(ps), dict(ps)
+
+
 def apply_rop(req, o, view=None):
     t = o[0]
     ck = req.cookies if view is None else view
@@ -398,23 +498,33 @@ def apply_rop(req, o, view=None):
         return catch(ck.clear)
     if t == "read":
         return read_all(ck, o[1])
-    if t == "assign":
-        arg = dict(o[1])
+    if t == "pop":
+        return catch(ck.pop, o[1], "dflt") if o[2] else catch(ck.pop, o[1])
+    if t == "setdefault":
+        return catch(ck.setdefault, o[1], o[2])
+    if t == "popitem":
+        r = catch(ck.popitem)
+        return list(r) if isinstance(r, tuple) else r
+    if t in ("assign", "update"):
+        arg, snap = pairs_arg(o, req)
 
         def f():
-            req.cookies = arg
+            if t == "assign":
+                req.cookies = arg
+            else:
+                ck.update(arg)
         r = catch(f)
-        if arg != dict(o[1]) or list(arg) != [k for k, _ in o[1]]:
+        if snap is not None and (arg != snap or (isinstance(arg, dict) and list(arg) != list(snap))):
             return Err("caller-dict-mutated")
         return r
     raise ValueError(o)
 
 
-def run_request_impl(header, ops, held=False):
+def run_request_impl(header, ops, held=False, cfg=0):
     """What the model's run_request_u computes: [[header, dict]] + per mutating step [result, header, dict].
     held: ONE RequestCookies view serves the whole history.  Read-only steps are executed but give no row: the
     model has no counterpart (its reads are functions of the header), so they must be invisible."""
-    req = new_request(header)
+    req = new_request(header, cfg)
     view = req.cookies if held else None
     out = [[req.environ.get("HTTP_COOKIE"), read_jar(req, view)]]
     for o in ops:
@@ -424,23 +534,71 @@ def run_request_impl(header, ops, held=False):
     return out
 
 
-def set_kwargs(a):
-    return {k: a[k] for k in ("max_age", "path", "domain", "comment", "secure", "httponly", "samesite")}
+def call_set_cookie(resp, a, overwrite):
+    """Response.set_cookie with the arguments of `a`, passed in the SHAPE a["shape"] asks for: the first `pos`
+    optional arguments positionally, name / value / attributes as bytes, max_age as timedelta or digit string, truthy
+    non-bool flags, value omitted (its default is the empty string)."""
+    sh = a.get("shape") or {}
+    name = a["name"].encode("ascii") if sh.get("name_bytes") else a["name"]
+    value = a.get("value")
+    if "value_raw" in a:
+        value = bytes.fromhex(a["value_raw"])
+    elif sh.get("value") == "bytes":
+        value = value.encode("utf-8")
+
+    def conv(v):
+        return v.encode("latin-1") if (sh.get("attr_bytes") and v is not None) else v
+    ma = a.get("max_age")
+    if ma is not None and sh.get("max_age") == "timedelta":
+        ma = datetime.timedelta(seconds=ma)
+    elif ma is not None and sh.get("max_age") == "str":
+        ma = str(ma)
+
+    def flag(b):
+        return (1 if b else 0) if sh.get("int_flags") else b
+    ordered = [("value", value), ("max_age", ma), ("path", conv(a.get("path"))), ("domain", conv(a.get("domain"))),
+               ("secure", flag(a.get("secure", False))), ("httponly", flag(a.get("httponly", False))),
+               ("comment", conv(a.get("comment"))), ("overwrite", overwrite), ("samesite", conv(a.get("samesite")))]
+    npos = sh.get("pos", 0)
+    if sh.get("value") == "omit":
+        npos, ordered = 0, ordered[1:]
+    args = [name] + [v for _, v in ordered[:npos]]
+    kw = dict(ordered[npos:])
+    ck = C()
+    old = ck.SAMESITE_VALIDATION
+    ck.SAMESITE_VALIDATION = a.get("validate", True)       # the module flag, read when the call is made
+    try:
+        return catch(resp.set_cookie, *args, **kw)
+    finally:
+        ck.SAMESITE_VALIDATION = old
 
 
 def apply_xop(rs, o):
     t = o[0]
     if t == "set":
-        return catch(rs[o[1]].set_cookie, o[2]["name"], o[2].get("value"), overwrite=o[3], **set_kwargs(o[2]))
+        return call_set_cookie(rs[o[1]], o[2], o[3])
     if t == "delete":
-        return catch(rs[o[1]].delete_cookie, o[2], path=o[3], domain=o[4])
+        sh = xshape(o)
+        name = o[2].encode("ascii") if sh.get("name_bytes") else o[2]
+        if sh.get("pos"):
+            return catch(rs[o[1]].delete_cookie, name, o[3], o[4])
+        if sh.get("omit") and o[3] == "/" and o[4] is None:
+            return catch(rs[o[1]].delete_cookie, name)
+        return catch(rs[o[1]].delete_cookie, name, path=o[3], domain=o[4])
     if t == "unset":
-        return catch(rs[o[1]].unset_cookie, o[2], strict=o[3])
-    if t == "merge":
-        r = catch(rs[o[1]].merge_cookies, rs[1 - o[1]])
+        sh = xshape(o)
+        name = o[2].encode("utf-8") if sh.get("name_bytes") else o[2]
+        if sh.get("pos"):
+            return catch(rs[o[1]].unset_cookie, name, o[3])
+        if sh.get("omit") and o[3] is True:
+            return catch(rs[o[1]].unset_cookie, name)
+        return catch(rs[o[1]].unset_cookie, name, strict=o[3])
+    if t in ("merge", "mergeself"):
+        target = rs[1 - o[1]] if t == "merge" else rs[o[1]]
+        r = catch(rs[o[1]].merge_cookies, target)
         if isinstance(r, Err):
             return r
-        if r is not rs[1 - o[1]]:
+        if r is not target:
             return Err("merge_cookies-did-not-return-the-response")
         return None
     if t == "raw":
@@ -448,12 +606,38 @@ def apply_xop(rs, o):
     raise ValueError(o)
 
 
-def new_responses(init):
+N_RCFG = 5
+
+
+def new_responses(init, cfg=0):
+    """Two Responses carrying the header lists `init`, constructed in the way `cfg` says:
+    0 Response() then .headerlist = list      1 Response(headerlist=list) (constructor keyword)
+    2 a subclass with default_charset = latin-1 and default_content_type = text/plain, its own headers kept in front
+    3 Response(charset=...) with .charset re-assigned AFTER construction, own headers kept in front
+    4 a webob.exc.HTTPOk instance (a Response subclass that is a WSGI application), own headers kept in front"""
     from webob import Response
     rs = []
     for hl in init:
-        r = Response()
-        r.headerlist = [(k, v) for k, v in hl]
+        pairs = [(k, v) for k, v in hl]
+        if cfg == 1:
+            r = Response(headerlist=pairs)
+        elif cfg == 2:
+            class Latin(Response):
+                default_charset = "latin-1"
+                default_content_type = "text/plain"
+            r = Latin()
+            r.headerlist.extend(pairs)
+        elif cfg == 3:
+            r = Response(charset="utf-16")
+            r.charset = "iso-8859-15"
+            r.headerlist.extend(pairs)
+        elif cfg == 4:
+            from webob import exc
+            r = exc.HTTPOk()
+            r.headerlist.extend(pairs)
+        else:
+            r = Response()
+            r.headerlist = pairs
         rs.append(r)
     return rs
 
@@ -462,11 +646,13 @@ def hl_obs(r):
     return [[k, v] for k, v in r.headerlist]
 
 
-def run_response_impl(init, ops):
-    """Per step [result, headerlist of response 0, headerlist of response 1] and the rendered dates (model input)."""
+def run_response_impl(init, ops, cfg=0):
+    """Per step [result, headerlist of response 0, headerlist of response 1], the rendered dates (model input) and
+    the header lists the two responses really start with (model input: construction may add headers of its own)."""
     out, dates = [], []
     with FrozenClock():
-        rs = new_responses(init)
+        rs = new_responses(init, cfg)
+        start = [hl_obs(r) for r in rs]
         for o in ops:
             r = apply_xop(rs, o)
             out.append([r, hl_obs(rs[0]), hl_obs(rs[1])])
@@ -475,7 +661,7 @@ def run_response_impl(init, ops):
                 m = re.search(r"expires=([^;]*)", rs[o[1]].headerlist[-1][1])
                 date = m.group(1) if m else ""
             dates.append(date)
-    return out, dates
+    return out, dates, start
 
 
 # =========================================================================== generators
@@ -549,7 +735,7 @@ def intent_dict(intent):
 
 
 GARBAGE = ["a", "A", "b", "ab", "=", "=", ";", "; ", " ", "\"", "\\", ",", "$", "1", "07", "3", "[", "]", "\t", "\n", "\xe9", "\xff",
-           "path", "secure", "a=1", "b=\"x\"", "Wed, 31-Dec-97 23:59:59 GMT", "\\073", "\x00", "\x7f", "(", "/"]
+           "path", "secure", "a=1", "b=\"x\"", "Wed, 31-Dec-97 23:59:59 GMT", "\\073", "\x00", "\x7f", "(", "/", "\u20ac"]
 
 
 def gen_garbage(rng):
@@ -566,32 +752,50 @@ BAD_NAMES = ["", "$a", "a b", "a;b", "a=b", "path", "Path", "SECURE", "max-age",
 GOOD_NAMES = NAMES + ["c", "a.b", "a-b", "!#%&'*+-.^_`|~", "aB", "Ab", "abc", "0"]
 
 
-def gen_rop(rng, wide=True):
-    t = rng.choice(["set", "set", "set", "del", "del", "clear", "assign", "read", "read"] if wide else ["set", "set", "del", "del"])
-    if t == "read":
-        return ("read", rng.choice(NAMES + ["c", "path", "$a"]))
-    if rng.random() < 0.12 and wide:
-        name = rng.choice(BAD_NAMES + [None])
-    else:
-        name = rng.choice(NAMES + NAMES + GOOD_NAMES)
-    if t == "set":
-        v = rng.choice(REQ_VALUES)
-        if wide and rng.random() < 0.05:
-            v = rng.choice([None, "\ud800", "a\udfffb"])
-        return ("set", name, v)
-    if t == "del":
-        return ("del", name)
-    if t == "clear":
-        return ("clear",)
+NONSTR = [None, b"a", 5]
+
+
+def gen_pairs(rng):
     ps = []
     for _ in range(rng.randrange(0, 4)):
         k = rng.choice(NAMES + GOOD_NAMES) if rng.random() < 0.9 else rng.choice([b for b in BAD_NAMES if b is not None])
         if k not in [p[0] for p in ps]:
             ps.append((k, rng.choice(REQ_VALUES)))
-    return ("assign", ps)
+    return ps
 
 
-def gen_request_case(rng, maxlen, cls=None):
+def gen_rop(rng, wide=True, shapes=False):
+    """shapes (oracle only): the MutableMapping methods built on the three primitives (pop with/without default,
+    setdefault, popitem, update) and request.cookies = <the request's own jar / another request's jar>."""
+    kinds = ["set", "set", "set", "del", "del", "clear", "assign", "read", "read"] if wide else ["set", "set", "del", "del"]
+    if shapes:
+        kinds = kinds + ["pop", "pop", "setdefault", "popitem", "update", "assign_self", "assign_view"]
+    t = rng.choice(kinds)
+    if t == "read":
+        return ("read", rng.choice(NAMES + ["c", "path", "$a"]))
+    if rng.random() < 0.12 and wide:
+        name = rng.choice(BAD_NAMES + NONSTR)
+    else:
+        name = rng.choice(NAMES + NAMES + GOOD_NAMES)
+    if t in ("set", "setdefault"):
+        v = rng.choice(REQ_VALUES)
+        if wide and rng.random() < 0.06:
+            v = rng.choice([None, b"x", 7, "\ud800", "a\udfffb"])
+        return (t, name, v)
+    if t == "del":
+        return ("del", name)
+    if t == "pop":
+        return ("pop", name, rng.random() < 0.5)
+    if t in ("clear", "popitem"):
+        return (t,)
+    if t == "assign_self":
+        return ("assign", [], "self")
+    if t == "assign_view":
+        return ("assign", [(k, v) for k, v in gen_pairs(rng) if valid_name_ref(k) and encodable(v)], "view")
+    return (t, gen_pairs(rng), rng.choice(["dict", "dict", "list", "gen"]))      # assign / update
+
+
+def gen_request_case(rng, maxlen, cls=None, shapes=False):
     cls = cls or rng.choice(["W", "W", "T", "T", "G"])
     if cls == "G":
         header, intent = gen_garbage(rng), None
@@ -599,16 +803,48 @@ def gen_request_case(rng, maxlen, cls=None):
         header, intent = gen_header(rng, cls)
     if rng.random() < 0.08:
         header, intent = (None, []) if rng.random() < 0.5 else ("", [])
-    ops = [gen_rop(rng) for _ in range(rng.randrange(1, maxlen + 1))]
-    return {"kind": "request", "class": cls, "header": header, "intent": intent, "ops": ops, "held": rng.random() < 0.5}
+    ops = [gen_rop(rng, True, shapes) for _ in range(rng.randrange(1, maxlen + 1))]
+    return {"kind": "request", "class": cls, "header": header, "intent": intent, "ops": ops, "held": rng.random() < 0.5,
+            "rcfg": rng.randrange(N_QCFG), "strictq": rng.choice([0, 0, 0, 1, 2]) if shapes else 0}
 
 
 ATTR_TEXT = [None, None, "/", "/p", "/p q", "/a;b", "x; secure", "d.example", ".e.com", "c\"o,m", "é", "", "a=b; HttpOnly", "\\"]
 
 
-def gen_args(rng, names):
+def needs_quote(b):
+    """Whether _value_quote has to quote these octets (and so warns, or raises under the strict configurations)."""
+    allowed = set(C()._allowed_cookie_bytes)
+    return any(c not in allowed for c in b)
+
+
+def gen_shape(rng, a):
+    """An argument shape applicable to these set_cookie arguments (same meaning, other spelling)."""
+    sh = {}
+    if rng.random() < 0.4:
+        sh["pos"] = rng.randrange(0, 10)
+    if rng.random() < 0.2 and all(ord(c) < 128 for c in a["name"]):
+        sh["name_bytes"] = True
+    v = a.get("value")
+    if isinstance(v, str) and encodable(v) and "value_raw" not in a:
+        x = rng.random()
+        if x < 0.2:
+            sh["value"] = "bytes"
+        elif x < 0.35 and v == "":
+            sh["value"] = "omit"
+    if rng.random() < 0.2 and all(a.get(k) is None or all(ord(c) < 256 for c in a[k]) for k in ("path", "domain", "comment", "samesite")):
+        sh["attr_bytes"] = True
+    if isinstance(a.get("max_age"), int) and abs(a["max_age"]) < 10 ** 9 and rng.random() < 0.5:
+        sh["max_age"] = rng.choice(["timedelta", "str"])
+    if rng.random() < 0.2:
+        sh["int_flags"] = True
+    return sh
+
+
+def gen_args(rng, names, wide=False):
+    """wide: also values outside what the model can express (oracle only): raw non-UTF-8 bytes as value, max_age that is
+    not an int (digit-free text, float) or too large for a date."""
     a = {"name": rng.choice(names), "value": rng.choice(TEXT_VALUES + TEXT_VALUES + BRACKET_VALUES), "max_age": None,
-         "path": "/", "domain": None, "comment": None, "samesite": None}
+         "path": "/", "domain": None, "comment": None, "samesite": None, "validate": True}
     if rng.random() < 0.5:
         a["path"] = rng.choice(ATTR_TEXT)
     if rng.random() < 0.3:
@@ -623,10 +859,23 @@ def gen_args(rng, names):
         a["samesite"] = rng.choice(["Strict", "lax", "None", "none", "NONE"] if a["secure"] else ["strict", "Lax", "lax", "none"])
     if rng.random() < 0.04:
         a["samesite"] = rng.choice(["bogus", "", "\u20ac"])
+    if rng.random() < 0.15:
+        # the module flag SAMESITE_VALIDATION switched off for this call: free-form values are copied
+        a["validate"] = False
+        if rng.random() < 0.6:
+            a["samesite"] = rng.choice(["future", "bogus", "\xe9", "None", "none", "", "a;b"])
     if rng.random() < 0.03:
         a["value"] = rng.choice([None, "\ud800"])
     if rng.random() < 0.03:
         a[rng.choice(["path", "domain", "comment"])] = "\u20ac"
+    if wide and rng.random() < 0.08:
+        a["oracle_only"] = True
+        if rng.random() < 0.4:
+            a["value_raw"] = rng.choice(["ff", "c3", "80413b", "00"])
+            a["value"] = None
+        else:
+            a["max_age"] = rng.choice(["x", "", 1.5, 10 ** 12, 10 ** 18, "60 "])
+    a["shape"] = gen_shape(rng, a)
     return a
 
 
@@ -644,32 +893,41 @@ def raw_line(rng, empty_ok):
     return l
 
 
-def gen_xop(rng, raw=True, empty_ok=True):
+def gen_xop(rng, raw=True, empty_ok=True, wide=False):
     names = NAMES + NAMES + ["c", "aB"] + (BAD_NAMES[:8] if rng.random() < 0.05 else [])
-    t = rng.choice(["set", "set", "set", "set_over", "set_over", "delete", "unset", "unset", "unset", "merge"] + (["raw"] if raw else []))
+    t = rng.choice(["set", "set", "set", "set_over", "set_over", "delete", "unset", "unset", "unset", "merge", "merge", "mergeself"]
+                   + (["raw"] if raw else []))
     who = int(rng.random() < 0.3)
     if t in ("set", "set_over"):
-        return ("set", who, gen_args(rng, names), t == "set_over")
+        return ("set", who, gen_args(rng, names, wide), t == "set_over")
     if t == "delete":
-        return ("delete", who, rng.choice(names), rng.choice(ATTR_TEXT[:6] + ["/"]), rng.choice(ATTR_TEXT[:2] + ["d.example"]))
+        name = rng.choice(names)
+        sh = {"pos": rng.random() < 0.3, "omit": rng.random() < 0.3, "name_bytes": rng.random() < 0.2 and all(ord(c) < 128 for c in name)}
+        return ("delete", who, name, rng.choice(ATTR_TEXT[:6] + ["/", "/", "/"]), rng.choice(ATTR_TEXT[:2] + [None, "d.example"]), sh)
     if t == "unset":
-        return ("unset", who, rng.choice(names + ["é"]), rng.random() < 0.7)
-    if t == "merge":
-        return ("merge", who)
+        name = rng.choice(names + ["\xe9"])
+        sh = {"pos": rng.random() < 0.3, "omit": rng.random() < 0.3, "name_bytes": rng.random() < 0.2}
+        return ("unset", who, name, rng.random() < 0.7, sh)
+    if t in ("merge", "mergeself"):
+        return (t, who)
     return ("raw", who, rng.choice(RAW_KEYS), raw_line(rng, empty_ok))
 
 
-def gen_response_case(rng, maxlen, raw=True, empty_ok=True):
+def gen_response_case(rng, maxlen, raw=True, empty_ok=True, wide=False):
+    """wide (oracle only): argument values the model cannot express, and the strict-quoting configurations
+    (webob.cookies._should_raise, RuntimeWarning turned into an error)."""
     init = [[], []]
     if raw and rng.random() < 0.4:
         for i in (0, 1):
             for _ in range(rng.randrange(0, 3)):
                 init[i].append([rng.choice(RAW_KEYS), raw_line(rng, empty_ok)])
     if rng.random() < 0.5:
-        init[0].insert(0, ["Content-Type", "text/html; charset=UTF-8"])
+        init[0].insert(0, ["Content-Type", rng.choice(["text/html; charset=UTF-8", "text/plain; charset=latin-1",
+                                                       "application/octet-stream", "text/html; charset=shift_jis"])])
         init[0].append(["Content-Length", "0"])
-    ops = [gen_xop(rng, raw, empty_ok) for _ in range(rng.randrange(1, maxlen + 1))]
-    return {"kind": "response", "init": init, "ops": ops}
+    ops = [gen_xop(rng, raw, empty_ok, wide) for _ in range(rng.randrange(1, maxlen + 1))]
+    return {"kind": "response", "init": init, "ops": ops, "rcfg": rng.randrange(N_RCFG),
+            "strictq": rng.choice([0, 0, 0, 1, 2]) if wide else 0}
 
 
 # =========================================================================== the property, executable
@@ -706,7 +964,7 @@ def classify_request(op, before):
     """A specific key for a request-jar failure: which known mechanism (if any) the failing step exercises."""
     pairs = raw_pairs(before) or []
     name = op[1] if len(op) > 1 and isinstance(op[1], str) else None
-    if op[0] in ("set", "del") and name is not None:
+    if op[0] in ("set", "del", "pop", "setdefault") and name is not None:
         bname = name.encode("utf-8", "replace")
         if sum(1 for k, _ in pairs if k == bname) >= 2:
             return "request-jar:duplicate-name-edit-acts-on-first-pair"
@@ -721,12 +979,27 @@ def classify_request(op, before):
     return "request-jar:dict-model"
 
 
+def set_refusal(name, value, strictq):
+    """None when cookies[name] = value must be accepted, else the exception classes with which it must be refused
+    (reference predicate: RFC 6265 token names that are not attribute words, text values; under the strict-quoting
+    configurations a value that needs quoting is refused as well)."""
+    if not isinstance(name, str) or not valid_name_ref(name):
+        return REJECT
+    if not isinstance(value, str) or not encodable(value):
+        return ("ValueError", "UnicodeEncodeError")
+    if strictq and needs_quote(value.encode("utf-8")):
+        return ("ValueError",) if strictq == 1 else ("RuntimeWarning",)
+    return None
+
+
 def oracle_request(case):
     """None if the statement holds on this case on the real RequestCookies, else (key, message)."""
     header, ops, cls = case["header"], case["ops"], case["class"]
-    with warnings.catch_warnings():
-        warnings.simplefilter("ignore")
-        req = new_request(header)
+    strictq = case.get("strictq", 0)
+    with StrictQuote(strictq):
+        if not strictq:
+            warnings.simplefilter("ignore")
+        req = new_request(header, case.get("rcfg", 0))
         view = req.cookies if case.get("held") else None      # ONE RequestCookies view for the whole history
         init = read_jar(req, view)
         ref = None
@@ -743,6 +1016,8 @@ def oracle_request(case):
             before = req.environ.get("HTTP_COOKIE")
             before_pairs = raw_pairs(before)
             before_jar = read_jar(req, view)
+            if ref is None and not semantic and not isinstance(before_jar, Err):
+                ref = {k: v for k, v in before_jar}      # readable again: follow the implementation from here on
             # a brand-new Request over the same header must answer this operation exactly like the long-lived one
             twin = new_request(before)
             tr = apply_rop(twin, op)
@@ -752,12 +1027,16 @@ def oracle_request(case):
             where = "step %d %r on %r (header %r -> %r): " % (i, op, header, before, after)
             key = classify_request(op, before)
             t = op[0]
-            if r != tr or after != twin.environ.get("HTTP_COOKIE"):
-                return ("request-jar:long-lived-object-differs-from-fresh",
-                        where + "this Request/RequestCookies gave %r and header %r, a fresh Request over the same header gives "
-                        "%r and %r" % (r, after, tr, twin.environ.get("HTTP_COOKIE")))
+            own_jar = t == "assign" and pairs_shape(op) == "self"
+            if own_jar:
+                key = "request-cookies-setter:self-assignment-loses-cookies"
+            if not own_jar:
+                if r != tr or after != twin.environ.get("HTTP_COOKIE"):
+                    return ("request-jar:long-lived-object-differs-from-fresh",
+                            where + "this Request/RequestCookies gave %r and header %r, a fresh Request over the same header "
+                            "gives %r and %r" % (r, after, tr, twin.environ.get("HTTP_COOKIE")))
             if r == Err("caller-dict-mutated"):
-                return ("request-jar:caller-argument-mutated", where + "the dict assigned to request.cookies was modified")
+                return ("request-jar:caller-argument-mutated", where + "the object assigned to request.cookies was modified")
             if t == "read":
                 if after != before or jar != before_jar:
                     return ("request-jar:read-changes-state", where + "a read-only access changed the jar")
@@ -765,19 +1044,30 @@ def oracle_request(case):
                     return ("request-jar:read-views-disagree", where + "get/in/len/items/keys/values/iter/[] give %r, "
                             "dict(cookies) is %r" % (r, before_jar))
                 continue
+            if before_pairs is None and (t in ("set", "del", "pop", "setdefault", "popitem", "update")
+                                         or (t == "assign" and pairs_shape(op) == "self")):
+                # OUTSIDE the model's domain: a Cookie header that is not latin-1.  What remains of the statement: every
+                # access is refused with UnicodeEncodeError (a name is refused first) and nothing changes
+                refused = isinstance(r, Err) and r.name in ("UnicodeEncodeError",) + REJECT + ("ValueError", "KeyError")
+                if t == "update" and not op[1]:
+                    refused = r is None
+                if not refused or after != before:
+                    return (key if own_jar else "request-jar:non-latin-1-header", where + "gave %r on a header that cannot be a WSGI string" % (r,))
+                continue
+            if isinstance(before_jar, Err) and t in ("setdefault", "pop", "popitem"):
+                # these read first: an unreadable jar (a value that is not UTF-8) answers with the same exception
+                if r != before_jar or after != before:
+                    return (key, where + "gave %r on a jar that reads as %r" % (r, before_jar))
+                continue
             # ---- what must happen
-            rejected = False
-            if t in ("set", "del"):
-                name = op[1]
-                if not isinstance(name, str) or not valid_name_ref(name):
-                    rejected = True
-                    if not (isinstance(r, Err) and r.name in REJECT):
-                        return (key, where + "invalid name not rejected (got %r)" % (r,))
-                elif t == "set" and (not isinstance(op[2], str) or not encodable(op[2])):
-                    rejected = True
-                    if not (isinstance(r, Err) and r.name in ("ValueError", "UnicodeEncodeError")):
-                        return (key, where + "non-text value not rejected with ValueError (got %r)" % (r,))
-            if rejected:
+            refusal = None
+            if t in ("set", "setdefault") and not (t == "setdefault" and ref is not None and op[1] in ref):
+                refusal = set_refusal(op[1], op[2], strictq)
+            elif t == "del" and (not isinstance(op[1], str) or not valid_name_ref(op[1])):
+                refusal = REJECT
+            if refusal:
+                if not (isinstance(r, Err) and r.name in refusal):
+                    return (key, where + "not refused with %s (got %r)" % ("/".join(refusal), r))
                 if after != before or jar != before_jar:
                     return (key, where + "a rejected operation changed the jar")
                 continue
@@ -787,11 +1077,21 @@ def oracle_request(case):
                 if r is not None or jar != []:
                     return (key, where + "clear() left %r (returned %r)" % (jar, r))
                 ref = {}
-            elif t == "assign":
-                if semantic or ref is not None:
-                    want, bad = {}, False
+            elif t in ("assign", "update"):
+                if pairs_shape(op) == "self":
+                    # request.cookies = request.cookies: nothing may change (under the strict-quoting configurations the
+                    # jar is written again, and a value that needs quoting is refused like in any other assignment)
+                    if ref is not None and strictq and any(needs_quote(v.encode("utf-8")) for v in ref.values()):
+                        if not isinstance(r, Err):
+                            return (key, where + "a value that needs quoting was accepted under strict quoting")
+                        ref = {k: v for k, v in jar} if not isinstance(jar, Err) else None
+                    elif ref is not None and (r is not None or jar != [[k, v] for k, v in ref.items()]):
+                        return ("request-cookies-setter:self-assignment-loses-cookies",
+                                where + "assigning the request's own jar gave %r and left %r, it held %r" % (r, jar, list(ref.items())))
+                elif semantic or ref is not None or t == "assign":
+                    want, bad = ({} if t == "assign" else dict(ref)), False
                     for k, v in op[1]:
-                        if not valid_name_ref(k) or not encodable(v):
+                        if set_refusal(k, v, strictq):
                             bad = True
                             break
                         want[k] = v
@@ -800,27 +1100,43 @@ def oracle_request(case):
                     if jar != [[k, v] for k, v in want.items()]:
                         return (key, where + "jar reads %r, assigned %r" % (jar, list(want.items())))
                     ref = want
-                    semantic = True      # the header is now entirely webob's own
+                    if t == "assign":
+                        semantic = True      # the header is now entirely webob's own
+            elif t == "popitem":
+                if ref is not None:
+                    if not ref:
+                        if r != Err("KeyError") or after != before and not (before is None and after in (None, "")):
+                            return (key, where + "popitem() on an empty jar gave %r" % (r,))
+                    elif not (isinstance(r, list) and len(r) == 2 and ref.get(r[0]) == r[1]):
+                        return (key, where + "popitem() gave %r, the jar held %r" % (r, list(ref.items())))
+                    else:
+                        del ref[r[0]]
+                        if jar != [[k, v] for k, v in ref.items()]:
+                            return (key, where + "jar reads %r, the reference dict is %r" % (jar, list(ref.items())))
             else:
                 name = op[1]
                 if ref is not None:
-                    present = name in ref
-                    if t == "del":
-                        if present and r is not None:
-                            return (key, where + "deleting a present cookie returned %r" % (r,))
-                        if not present and r != Err("KeyError"):
-                            return (key, where + "deleting an absent cookie gave %r, not KeyError" % (r,))
+                    present = isinstance(name, str) and name in ref
+                    if t in ("del", "pop"):
+                        want_r = None if t == "del" else ref[name] if present else "dflt" if op[2] else Err("KeyError")
+                        if present and r != want_r:
+                            return (key, where + "removing a present cookie returned %r" % (r,))
+                        if not present and r != (Err("KeyError") if t == "del" else want_r):
+                            return (key, where + "removing an absent cookie gave %r" % (r,))
                         if not present and (after != before and not (before is None and after in (None, ""))):
                             return (key, where + "a failed deletion changed the header")
                         if present:
                             del ref[name]
+                    elif t == "setdefault" and present:
+                        if r != ref[name] or after != before:
+                            return (key, where + "setdefault of a present cookie gave %r" % (r,))
                     else:
-                        if r is not None:
-                            return (key, where + "assignment raised %r" % (r,))
+                        if r != (None if t == "set" else op[2]):
+                            return (key, where + "assignment gave %r" % (r,))
                         ref[name] = op[2]
                 elif t == "set" and r is not None and not isinstance(init, Err):
                     return (key, where + "assignment raised %r" % (r,))
-                if semantic:
+                if semantic and isinstance(name, str) and valid_name_ref(name):
                     if jar != [[k, v] for k, v in ref.items()]:
                         return (key, where + "jar reads %r, the reference dict is %r" % (jar, list(ref.items())))
                     bname = name.encode("ascii")
@@ -828,9 +1144,11 @@ def oracle_request(case):
                     b = [kv for kv in before_pairs if kv[0] != bname]
                     if a != b:
                         return (key, where + "pairs of other names changed: %r -> %r" % (b, a))
-                elif ref is not None:
+                elif ref is not None and not semantic:
                     # outside the tokenisable class only coherence is asked: the reference follows the implementation
                     ref = {k: v for k, v in jar} if not isinstance(jar, Err) else None
+            if not semantic and ref is not None:
+                ref = {k: v for k, v in jar} if not isinstance(jar, Err) else None
             f1, f2 = fresh_views(req)
             if view is not None and read_jar(req) != jar:
                 return ("request-jar:fresh-request-disagrees", where + "a new req.cookies view reads %r, the held one %r" % (read_jar(req), jar))
@@ -849,11 +1167,36 @@ def ref_line_name(line):
     return first.split("=", 1)[0].strip(" \t") or None      # a cookie-name is a token: never empty
 
 
-def args_valid(a, deleting=False):
+def value_octets(a):
+    """The octets a set_cookie call stores as the cookie value (None: deletion / not expressible)."""
+    if "value_raw" in a:
+        return bytes.fromhex(a["value_raw"])
+    v = a.get("value")
+    if v is None or not encodable(v):
+        return None
+    return v.encode("utf-8")
+
+
+def max_age_seconds(m):
+    """int(max_age) as make_cookie takes it; 'bad' when it must be refused (not a number, or no such date)."""
+    if m is None:
+        return None
+    try:
+        n = int(m)
+    except (ValueError, TypeError):
+        return "bad"
+    try:
+        FrozenClock.NOW + datetime.timedelta(seconds=n)
+    except OverflowError:
+        return "bad"
+    return n
+
+
+def args_valid(a, deleting=False, strictq=0):
     """Whether set_cookie must succeed on these arguments (reference predicate)."""
     if not valid_name_ref(a["name"]):
         return False
-    if not deleting and a.get("value") is not None and not encodable(a["value"]):
+    if not deleting and "value_raw" not in a and a.get("value") is not None and not encodable(a["value"]):
         return False
     for k in ("path", "domain", "comment", "samesite"):
         v = a.get(k)
@@ -862,13 +1205,42 @@ def args_valid(a, deleting=False):
                 v.encode("latin-1")
             except UnicodeEncodeError:
                 return False
+    if not deleting and ("value_raw" in a or a.get("value") is not None) and max_age_seconds(a.get("max_age")) == "bad":
+        return False          # (value None = deletion: max_age is overridden)
     ss = a.get("samesite")
-    if ss is not None:
-        if ss.lower() not in ("strict", "lax", "none"):
+    if ss:
+        if a.get("validate", True) and ss.lower() not in ("strict", "lax", "none"):
             return False
         if ss.lower() == "none" and not a.get("secure"):
             return False
+        if not all(ord(c) < 128 for c in ss):
+            return False          # the header line must be ASCII
+    elif ss == "" and a.get("validate", True):
+        return False
+    if strictq:
+        # webob.cookies._should_raise / RuntimeWarning as error: a value that needs quoting is refused
+        vo = None if deleting else value_octets(a)
+        if vo and needs_quote(vo):
+            return False
+        if a.get("comment") and needs_quote(a["comment"].encode("latin-1")):
+            return False
     return True
+
+
+def ref_unescape(raw):
+    """Reference reading (NOT webob's) of an emitted cookie value: optional double quotes, \\ooo octal escapes."""
+    if len(raw) >= 2 and raw[0] == raw[-1] == '"':
+        raw = raw[1:-1]
+    out = bytearray()
+    i = 0
+    while i < len(raw):
+        if raw[i] == "\\" and re.fullmatch(r"[0-3][0-7][0-7]", raw[i + 1:i + 4] or ""):
+            out.append(int(raw[i + 1:i + 4], 8))
+            i += 4
+        else:
+            out.append(ord(raw[i]))
+            i += 1
+    return bytes(out)
 
 
 def check_line(line, a, deleting):
@@ -887,7 +1259,16 @@ def check_line(line, a, deleting):
     for attr, k in (("Path", "path"), ("Domain", "domain"), ("Comment", "comment")):
         if (attr in keys) != bool(a.get(k)):
             return "line %r: %s attribute presence is wrong" % (line, attr)
-    if deleting or a.get("value") is None:
+    vo = None if deleting else value_octets(a)
+    if vo is not None:
+        # the value is the UTF-8 text (or the bytes) given, whatever charset the Response has
+        got = ref_unescape(parts[0][len(a["name"]) + 1:])
+        if got != vo:
+            return "line %r carries the value %r, not %r" % (line, got, vo)
+        secs = max_age_seconds(a.get("max_age"))
+        if ("Max-Age" in keys) != (secs is not None) or (secs is not None and "Max-Age=%d" % secs not in parts[1:]):
+            return "line %r: Max-Age is not %r" % (line, secs)
+    if deleting or (a.get("value") is None and "value_raw" not in a):
         if parts[0] != a["name"] + "=":
             return "deletion line %r carries a value" % line
         if "Max-Age=0" not in parts[1:]:
@@ -913,10 +1294,12 @@ def split_hl(hl):
 def oracle_response(case):
     """None if the Set-Cookie headers follow the reference list model after every step, else (key, message)."""
     init, ops = case["init"], case["ops"]
-    with FrozenClock():
-        rs = new_responses(init)
-        ref = [split_hl(hl)[0] for hl in init]
-        others = [split_hl(hl)[1] for hl in init]
+    strictq = case.get("strictq", 0)
+    with FrozenClock(), StrictQuote(strictq):
+        rs = new_responses(init, case.get("rcfg", 0))
+        start = [hl_obs(x) for x in rs]        # construction may add headers of its own (Content-Type, Content-Length)
+        ref = [split_hl(hl)[0] for hl in start]
+        others = [split_hl(hl)[1] for hl in start]
         for i, op in enumerate(ops):
             t = op[0]
             before = [split_hl(hl_obs(r))[0] for r in rs]
@@ -937,7 +1320,7 @@ def oracle_response(case):
             if t in ("set", "delete"):
                 w = op[1]
                 a = op[2] if t == "set" else {"name": op[2], "value": None, "path": op[3], "domain": op[4]}
-                ok = args_valid(a, t == "delete")
+                ok = args_valid(a, t == "delete", strictq)
                 filtered = [l for l in want[w] if ref_line_name(l) != a["name"]] if (t == "set" and op[3]) else want[w]
                 if ok:
                     if r is not None:
@@ -967,8 +1350,8 @@ def oracle_response(case):
                         return (key, where + "unset_cookie of an absent cookie gave %r, not KeyError" % (r,))
                 elif r is not None:
                     return (key, where + "unset_cookie(strict=False) raised %r" % (r,))
-            elif t == "merge":
-                src, dst = op[1], 1 - op[1]
+            elif t in ("merge", "mergeself"):
+                src, dst = op[1], (1 - op[1] if t == "merge" else op[1])
                 if r is not None:
                     return (key, where + "merge_cookies gave %r" % (r,))
                 want[dst] = want[dst] + want[src]
@@ -1013,7 +1396,7 @@ def gen_app_case(rng, empty_ok=True):
         x = rng.random()
         calls.append(("w",) if x < 0.55 else ("b",) if x < 0.8 else ("op", gen_xop(rng, True, empty_ok)))
     return {"kind": "app", "init": c["init"], "pre": c["ops"], "app_headers": rng.choice(APP_HEADERS),
-            "reuse": rng.random() < 0.6, "calls": calls}
+            "reuse": rng.random() < 0.6, "calls": calls, "rcfg": c["rcfg"]}
 
 
 def run_app_impl(case):
@@ -1028,7 +1411,8 @@ def run_app_impl(case):
         return [b"body"]
     out, dates_pre, dates_calls = [], [], []
     with FrozenClock():
-        rs = new_responses(case["init"])
+        rs = new_responses(case["init"], case.get("rcfg", 0))
+        start = [hl_obs(x) for x in rs]
         for o in case["pre"]:
             r = apply_xop(rs, o)
             date = ""
@@ -1039,7 +1423,7 @@ def run_app_impl(case):
         out.append(hl_obs(rs[0]))
         wrapped = catch(rs[0].merge_cookies, app)
         if isinstance(wrapped, Err):
-            return [wrapped], dates_pre, dates_calls, False
+            return [wrapped], dates_pre, dates_calls, False, start
 
         def call(a):
             seen = []
@@ -1064,13 +1448,13 @@ def run_app_impl(case):
                 out.append([r, hl_obs(rs[0])])
             dates_calls.append(date)
         out.append([list(h) for h in own])
-    return out, dates_pre, dates_calls, wrapped is app
+    return out, dates_pre, dates_calls, wrapped is app, start
 
 
 def oracle_app(case):
     """Every answer of the wrapped application = the application's own headers followed by the Set-Cookie headers the
     response carried when merge_cookies was called, once; the bare application and its own list object are unchanged."""
-    out, _, _, same = run_app_impl(case)
+    out, _, _, same, _ = run_app_impl(case)
     if isinstance(out[0], Err) or len(out) < 2:
         return ("merge-cookies-app:answer-differs", "merge_cookies(app) raised %r" % (out[-1],))
     own = [list(h) for h in case["app_headers"]]
@@ -1100,7 +1484,33 @@ def c_acall(c, date=""):
     return "(AOp %s)" % c_xop(c[1], date)
 
 
+def oracle_nonlatin(case):
+    """OUTSIDE the model's domain: a Set-Cookie value that is not latin-1 (it cannot be sent, but it can sit in a header
+    list).  What remains of the statement: unset_cookie / overwrite refuse with UnicodeEncodeError and change nothing;
+    the operations that do not read the existing lines work as usual."""
+    op = case["op"]
+    with FrozenClock():
+        rs = new_responses([[["Set-Cookie", l] for l in case["lines"]], []])
+        before = hl_obs(rs[0])
+        r = apply_xop(rs, op)
+        after = hl_obs(rs[0])
+        t = op[0]
+        where = "%r on Set-Cookie lines %r: " % (op, case["lines"])
+        if t == "unset" or (t == "set" and op[3]):
+            if r != Err("UnicodeEncodeError") or after != before:
+                return ("response:non-latin-1-line", where + "gave %r and left %r" % (r, after))
+        elif t in ("set", "delete"):
+            if r is not None or after[:-1] != before or len(after) != len(before) + 1:
+                return ("response:non-latin-1-line", where + "gave %r and left %r" % (r, after))
+        elif t == "merge":
+            if r is not None or after != before or [v for k, v in hl_obs(rs[1])] != case["lines"]:
+                return ("response:non-latin-1-line", where + "gave %r, target carries %r" % (r, hl_obs(rs[1])))
+    return None
+
+
 def oracle(case):
+    if case.get("kind") == "nonlatin":
+        return oracle_nonlatin(case)
     if case.get("kind") == "app":
         return oracle_app(case)
     if case.get("kind") == "request":
@@ -1112,6 +1522,9 @@ def oracle(case):
 
 def to_json(case):
     c = dict(case)
+    if c["kind"] == "nonlatin":
+        c["op"] = j_xop(c["op"])
+        return c
     if c["kind"] == "app":
         c["pre"] = [j_xop(o) for o in c["pre"]]
         c["calls"] = [[x[0]] if x[0] != "op" else ["op", j_xop(x[1])] for x in c["calls"]]
@@ -1127,6 +1540,9 @@ def to_json(case):
 
 def from_json(c):
     c = dict(c)
+    if c["kind"] == "nonlatin":
+        c["op"] = unj_xop(c["op"])
+        return c
     if c["kind"] == "app":
         c["pre"] = [unj_xop(o) for o in c["pre"]]
         c["calls"] = [(x[0],) if x[0] != "op" else ("op", unj_xop(x[1])) for x in c["calls"]]
@@ -1178,6 +1594,8 @@ def shrink(case, key):
     while progress:
         progress = False
         cands = []
+        if best["kind"] == "nonlatin":
+            return best
         if best["kind"] == "app":
             for fld in ("pre", "calls"):
                 for i in range(len(best[fld])):
@@ -1234,7 +1652,7 @@ MODELLED = [
     # response side (C15_CookieJar.v)
     "webob.cookies:make_cookie", "webob.cookies:Morsel.__init__", "webob.cookies:Morsel.__setitem__",
     "webob.cookies:Morsel.serialize", "webob.cookies:cookie_property", "webob.cookies:serialize_max_age",
-    "webob.cookies:serialize_samesite", "webob.cookies:serialize_cookie_date",
+    "webob.cookies:serialize_samesite", "webob.cookies:serialize_cookie_date", "webob.cookies:SAMESITE_VALIDATION",
     "webob.response:Response.set_cookie", "webob.response:Response.delete_cookie", "webob.response:Response.unset_cookie",
     "webob.response:Response.merge_cookies", "webob.headers:ResponseHeaders.getall", "webob.headers:ResponseHeaders.get",
     "webob.multidict:MultiDict.add",
@@ -1250,7 +1668,12 @@ ORACLE_ONLY = [
     "webob.cookies:RequestCookies.__init__", "webob.cookies:RequestCookies.__getitem__", "webob.cookies:RequestCookies.get",
     "webob.cookies:RequestCookies.keys", "webob.cookies:RequestCookies.values", "webob.cookies:RequestCookies.items",
     "webob.cookies:RequestCookies.__contains__", "webob.cookies:RequestCookies.__iter__", "webob.cookies:RequestCookies.__len__",
-    "webob.cookies:SAMESITE_VALIDATION",
+    # MutableMapping mix-ins built on the three primitives (stdlib): pop, setdefault, popitem, update
+    "webob.cookies:RequestCookies.pop", "webob.cookies:RequestCookies.setdefault", "webob.cookies:RequestCookies.popitem",
+    "webob.cookies:RequestCookies.update",
+    # configurations: strict quoting (module flag / warnings filter); SAMESITE_VALIDATION itself is a model input
+    "webob.cookies:_should_raise", "webob.request:BaseRequest.charset", "webob.request:BaseRequest.url_encoding",
+    "webob.response:Response.default_charset", "webob.response:Response.default_content_type",
 ]
 
 
@@ -1279,10 +1702,10 @@ def run(ctx):
     with FrozenClock():
         for _ in range(n // 4):
             c = gen_response_case(rng, 3)
-            rs = new_responses(c["init"])
+            rs = new_responses(c["init"], c["rcfg"])
             for o in c["ops"]:
                 apply_xop(rs, o)
-            hdrs += [v for r in rs for k, v in r.headerlist if k.lower() == "set-cookie" and len(v) < 200]
+            hdrs += [v for r in rs for k, v in r.headerlist if k.lower() == "set-cookie" and len(v) < 120]
     hb = [h.encode("latin-1") for h in hdrs if all(ord(ch) < 256 for ch in h)] + singles[:128]
     corr_simple(ctx, "scan", "scan_val", "str", hb, impl_scan, cstr)
     corr_simple(ctx, "parse_cookie", "(fun s => pairs_val (parse_cookie s))", "str", hb,
@@ -1302,7 +1725,7 @@ def run(ctx):
     cases = []
     for i in range(n):
         c = gen_request_case(rng, maxlen)
-        out = run_request_impl(c["header"], c["ops"], c["held"])
+        out = run_request_impl(c["header"], c["ops"], c["held"], c["rcfg"])
         lit = cpair("None" if c["header"] is None else "(Some %s)" % cstr(c["header"]),
                     clist(c_rop(o) for o in c["ops"] if o[0] != "read"))
         cases.append((lit, out, c))
@@ -1312,11 +1735,12 @@ def run(ctx):
         if not report(ctx, cases[i][2], "corr"):
             ctx.broken.append("correspondence request-jar: model and implementation disagree on %s (implementation gives %r)"
                               % (json.dumps(to_json(cases[i][2])), cases[i][1]))
+    nh = ctx.scale(350, 5000)      # histories are the expensive literals: fewer in the quick tier
     cases = []
-    for i in range(n):
+    for i in range(nh):
         c = gen_response_case(rng, maxlen)
-        out, dates = run_response_impl(c["init"], c["ops"])
-        lit = cpair(cpair(clist(cpair(cstr(k), cstr(v)) for k, v in c["init"][0]), clist(cpair(cstr(k), cstr(v)) for k, v in c["init"][1])),
+        out, dates, start = run_response_impl(c["init"], c["ops"], c["rcfg"])
+        lit = cpair(cpair(clist(cpair(cstr(k), cstr(v)) for k, v in start[0]), clist(cpair(cstr(k), cstr(v)) for k, v in start[1])),
                     clist(c_xop(o, d) for o, d in zip(c["ops"], dates)))
         cases.append((lit, out, c))
     bad = ctx.corr("response-cookies", IMPORTS, "(fun c => run_response_u (fst c) (snd c))",
@@ -1331,10 +1755,10 @@ def run(ctx):
                               % (json.dumps(to_json(cases[i][2])), cases[i][1]))
 
     cases = []
-    for i in range(n):
+    for i in range(nh):
         c = gen_app_case(rng)
-        out, dpre, dcalls, _ = run_app_impl(c)
-        lit = cpair(cpair(cpair(clist(cpair(cstr(k), cstr(v)) for k, v in c["init"][0]), clist(cpair(cstr(k), cstr(v)) for k, v in c["init"][1])),
+        out, dpre, dcalls, _, start = run_app_impl(c)
+        lit = cpair(cpair(cpair(clist(cpair(cstr(k), cstr(v)) for k, v in start[0]), clist(cpair(cstr(k), cstr(v)) for k, v in start[1])),
                           clist(c_xop(o, d) for o, d in zip(c["pre"], dpre))),
                     cpair(clist(cpair(cstr(k), cstr(v)) for k, v in c["app_headers"]),
                           clist(c_acall(x, d) for x, d in zip(c["calls"], dcalls))))
@@ -1380,8 +1804,12 @@ def run(ctx):
         "merge_cookies treats a last empty value as 'nothing to merge' (modelled faithfully, covered by correspondence)",
         "set_cookie(overwrite=True) with arguments that are refused may already have removed the old cookie of that name "
         "(unset runs first); other names are untouched",
-        "SAMESITE_VALIDATION is left at its default (True); expiry dates of max_age cookies are an abstract input of the "
-        "model (C07 checks them)",
+        "SAMESITE_VALIDATION is a per-call input of the model (both settings exercised); expiry dates of max_age cookies "
+        "are an abstract input of the model (C07 checks them)",
+        "the model's inputs are str names/values (anything else = 'not a str'), int max_age, latin-1 header text; the oracle "
+        "also visits bytes/int/None names and values, raw non-UTF-8 byte values, max_age as text/float/out-of-range int, "
+        "non-latin-1 Cookie and Set-Cookie text and checks what remains of the statement there (stated refusal, nothing "
+        "changes, views coherent)",
     ]
     ctx.trusted += [
         "harness/props/c15.py gen(): reading of the alphabets/tables from the live module and the structural comparison of "
@@ -1414,6 +1842,10 @@ def small_rops():
     u.append(("del", "path"))
     u.append(("clear",))
     u.append(("assign", [("b", "5"), ("A", "é")]))
+    u.append(("assign", [], "self"))
+    u.append(("pop", "a", False))
+    u.append(("setdefault", "b", "9"))
+    u.append(("set", b"a", "1"))
     return u
 
 
@@ -1434,7 +1866,11 @@ def small_xops():
     u.append(("unset", 0, "A", False))
     u.append(("merge", 0))
     u.append(("merge", 1))
+    u.append(("mergeself", 0))
     u.append(("raw", 0, "Set-Cookie", "z=1; Priority=High; Partitioned"))
+    u.append(("set", 0, dict(base, name="ab", value="é", secure=True, samesite="future", validate=False,
+                             shape={"pos": 9, "name_bytes": True, "value": "bytes", "int_flags": True}), True))
+    u.append(("unset", 0, "ab", True, {"pos": True, "name_bytes": True}))
     return u
 
 
@@ -1445,7 +1881,8 @@ def run_oracle(ctx):
     for hi, h in enumerate(SMALL_HEADERS):
         for d in range(1, depth + 1):
             for ops in itertools.product(U, repeat=d):
-                case = {"kind": "request", "class": "W", "header": h, "intent": SMALL_INTENT[hi], "ops": list(ops)}
+                case = {"kind": "request", "class": "W", "header": h, "intent": SMALL_INTENT[hi], "ops": list(ops),
+                        "held": cnt % 2 == 1, "rcfg": cnt % N_QCFG}
                 cnt += 1
                 nt += any(o[0] != "del" or valid_name_ref(o[1]) for o in ops)
                 report(ctx, case, "exhaustive-request")
@@ -1454,7 +1891,8 @@ def run_oracle(ctx):
     X = small_xops()
     for d in range(1, depth + 1):
         for ops in itertools.product(X, repeat=d):
-            case = {"kind": "response", "init": [[["Content-Type", "text/plain"], ["Set-Cookie", KEPT_LINE]], []], "ops": list(ops)}
+            case = {"kind": "response", "init": [[["Content-Type", "text/plain"], ["Set-Cookie", KEPT_LINE]], []], "ops": list(ops),
+                    "rcfg": cnt % N_RCFG}
             cnt += 1
             report(ctx, case, "exhaustive-response")
     ctx.oracle_count("exhaustive-response", cnt, cnt)
@@ -1462,15 +1900,24 @@ def run_oracle(ctx):
     m = ctx.scale(4000, 60000)
     nt = 0
     for _ in range(m):
-        case = gen_request_case(r2, 12)
+        case = gen_request_case(r2, 12, None, True)
         nt += case["class"] != "G"
         report(ctx, case, "random-request")
     ctx.oracle_count("random-request", m, nt)
     r3 = ctx.sub_rng("oracle-response")
     m = ctx.scale(2500, 40000)
     for _ in range(m):
-        report(ctx, gen_response_case(r3, 12, True, False), "random-response")
+        report(ctx, gen_response_case(r3, 12, True, False, True), "random-response")
     ctx.oracle_count("random-response", m, m)
+    # outside the model's domain: a Set-Cookie value that is not latin-1
+    cnt = 0
+    base0 = {"max_age": None, "path": "/", "domain": None, "comment": None, "secure": False, "httponly": False, "samesite": None}
+    for lines in (["a=\u20ac"], ["a=1", "b=\u20ac; Path=/"], ["\u20ac", "a=1"]):
+        for op in (("unset", 0, "a", True), ("unset", 0, "zz", False), ("set", 0, dict(base0, name="a", value="2"), True),
+                   ("set", 0, dict(base0, name="c", value="2"), False), ("delete", 0, "a", "/", None), ("merge", 0)):
+            cnt += 1
+            report(ctx, {"kind": "nonlatin", "lines": lines, "op": op}, "non-latin-1-lines")
+    ctx.oracle_count("non-latin-1-lines", cnt, cnt)
     # merge_cookies onto a plain WSGI application: a fresh header list per call / ONE reused list object; the wrapped
     # application called several times, the bare one afterwards
     cnt = 0
@@ -1503,9 +1950,9 @@ def run_oracle(ctx):
         out = {}
         for kind, i in order:
             if kind == 0:
-                out[(kind, i)] = run_request_impl(rq[i]["header"], rq[i]["ops"], rq[i]["held"])
+                out[(kind, i)] = run_request_impl(rq[i]["header"], rq[i]["ops"], rq[i]["held"], rq[i]["rcfg"])
             elif kind == 1:
-                out[(kind, i)] = run_response_impl(rp[i]["init"], rp[i]["ops"])[0]
+                out[(kind, i)] = run_response_impl(rp[i]["init"], rp[i]["ops"], rp[i]["rcfg"])[0]
             else:
                 out[(kind, i)] = run_app_impl(ap[i])[0]
         return out
@@ -1526,7 +1973,7 @@ def run_oracle(ctx):
 def replay(ctx, path):
     data = json.load(open(path))
     case = data.get("case") or {}
-    if case.get("kind") not in ("request", "response", "app"):
+    if case.get("kind") not in ("request", "response", "app", "nonlatin"):
         print("replay: nothing executable in this file (broken obligation): %s" % data.get("what"))
         return 1
     warnings.simplefilter("ignore")
